@@ -101,13 +101,23 @@ void h_bmod2D(void) {
   REQ(rows_in_range, FA(q1, LC, INLIST(q1) ==> (0 <= in_lsub[q1] && in_lsub[q1] < in_m)));
   REQ(rows_distinct, FA(q2, LC, FA(q3, LC, (INLIST(q2) && q2 < q3 && INLIST(q3)) ==> in_lsub[q2] != in_lsub[q3])));
   /* each panel column's U-segment w.r.t. this supernode is empty or starts at a column of the supernode */
+#if W == 1   /* (a quantifier over a single value is dropped by the back end) */
+  REQ(segments, KFNZ(0) == EMPTY || (in_fsupc <= KFNZ(0) && KFNZ(0) <= in_krep));
+#else
   REQ(segments, FA(c1, W, c1 < in_w ==> (KFNZ(c1) == EMPTY || (in_fsupc <= KFNZ(c1) && KFNZ(c1) <= in_krep))));
+#endif
   /* blocking parameters: a supernode has at most maxsuper columns; tempv holds w slots of maxsuper+rowblk scalars (NUM_TEMPV) */
   REQ(blocking, in_nsupc <= in_maxsuper && in_maxsuper <= TVC && 1 <= in_rowblk && in_rowblk <= TVC && in_w*(in_maxsuper + in_rowblk) <= TVC);
   REQ(tempv_zero_on_entry, FA(t1, TVC, in_tempv[t1] == 0.0));
   /* ghost indices: panel column, row below the diagonal block, list position, row id, tempv index; one index per read-only array */
   REQ(ghosts, 0 <= g_c && g_c < in_w && 0 <= g_row && g_row < M && 0 <= g_q && g_q < in_nsupr && 0 <= g_r && g_r < in_m && 0 <= g_t && g_t < TVC && 0 <= g_p && g_p < LUC && 0 <= g_l && g_l < LC && 0 <= g_x && g_x < M);
   g_dense0_r = DENSE(g_c, g_r); g_dense0_q = DENSE(g_c, in_lsub[g_lptr + g_q]);
+  /* the compared pre-state values are numbers (NaN != NaN would make "kept" unprovable) */
+  REQ(values_numbers, g_dense0_r == g_dense0_r && g_dense0_q == g_dense0_q && in_lusup[g_p] == in_lusup[g_p]);
+#if ZEROL
+  /* special values: every stored entry of the supernode is 0.0 and column g_c of dense[] is finite: then every update term is 0 */
+  REQ(zero_supernode, FA(z1, LUC, (g_xf <= z1 && z1 < SNODE_END) ==> in_lusup[z1] == 0.0) && FA(z2, M, z2 < in_m ==> (-1e30 <= DENSE(g_c, z2) && DENSE(g_c, z2) <= 1e30)));
+#endif
   g_lu0 = in_lusup[g_p]; g_lsub0 = in_lsub[g_l]; g_repfnz0 = in_repfnz[g_c*in_m + g_x]; g_xlsub0 = in_xlsub[g_x]; g_xlsub_end0 = in_xlsub_end[g_x]; g_xlusup0 = in_xlusup[g_x];
   g_unused0[0] = in_panel_lsub[g_c*in_m + g_x]; g_unused0[1] = in_spa_marker[g_c*in_m + g_x]; g_unused0[2] = in_w_lsub_end[g_c];
 
@@ -120,16 +130,27 @@ void h_bmod2D(void) {
   ENS(no_blas_for_small_segments, BLAS(g_c) || (g_trsv_cnt == 0 && g_gemv_cnt == 0));
   /* C02: every row g_row below the diagonal block is multiplied exactly once, by columns no_zeros..krep of the supernode */
   ENS(each_row_below_updated_once, !(BLAS(g_c) && g_row < in_nrow) || (g_gemv_cnt == 1 && g_gemv_n == SEGSZE(g_c) && g_gemv_aoff <= RECT_OFF(g_c, g_row) && RECT_OFF(g_c, g_row) < g_gemv_aoff + g_gemv_m));
+#if VALS
   /* C05: dense[] of a panel column is written only at rows of the supernode's row list, and not above the segment's first row */
   ENS(dense_outside_list_kept, EX(e1, LC, INLIST(e1) && in_lsub[e1] == g_r) || DENSE(g_c, g_r) == g_dense0_r);
   ENS(dense_above_segment_kept, !(ACTIVE(g_c) && g_q < NOZEROS(g_c)) || DENSE(g_c, in_lsub[g_lptr + g_q]) == g_dense0_q);
   ENS(dense_empty_segment_kept, ACTIVE(g_c) || DENSE(g_c, g_r) == g_dense0_r);
+  /* C02: in the hand-unrolled cases (segsze 1,2,3) the first entry of the segment is the top of a unit lower triangular solve: it is
+   * read, never written -- in particular not by the final scatter of the (unused, all-zero) TriTmp slot */
+  ENS(unrolled_first_row_kept, !(ACTIVE(g_c) && SEGSZE(g_c) <= 3 && g_q == NOZEROS(g_c)) || DENSE(g_c, in_lsub[g_lptr + g_q]) == g_dense0_q);
+#if ZEROL
+  /* C02: with an all-zero supernode the hand-unrolled update is the identity on the whole column (x - u*0 == x): the solved segment
+   * produced by the unrolled formulas is what dense[] holds on exit -- the final scatter loop leaves columns with segsze <= 3 alone */
+  ENS(unrolled_zero_update_is_identity, !(ACTIVE(g_c) && SEGSZE(g_c) <= 3) || DENSE(g_c, g_r) == g_dense0_r);
+#endif
   ENS(tempv_zero_on_exit, in_tempv[g_t] == 0.0);
+#endif
   /* frame: the supernode, the index structures and the unused SCATTER_FOUND arrays are not written */
   ENS(frame_lusup, in_lusup[g_p] == g_lu0);
   ENS(frame_index_arrays, in_lsub[g_l] == g_lsub0 && in_repfnz[g_c*in_m + g_x] == g_repfnz0 && in_xlsub[g_x] == g_xlsub0 && in_xlsub_end[g_x] == g_xlsub_end0 && in_xlusup[g_x] == g_xlusup0);
   ENS(frame_unused_arrays, in_panel_lsub[g_c*in_m + g_x] == g_unused0[0] && in_spa_marker[g_c*in_m + g_x] == g_unused0[1] && in_w_lsub_end[g_c] == g_unused0[2]);
   __CPROVER_assert(0, "canary: bmod2D returns");
+#if !VALS   /* the case canaries live in the variant whose formula carries no floating-point arithmetic */
   if (BLAS(0) && NOZEROS(0) > 0) __CPROVER_assert(0, "canary: segsze >= 4 with no_zeros > 0");
   if (BLAS(0) && in_nrow > in_rowblk && in_nrow - in_rowblk < in_rowblk) __CPROVER_assert(0, "canary: several block rows, last one short");
   if (in_w == 2 && BLAS(0) && BLAS(1) && KFNZ(0) != KFNZ(1)) __CPROVER_assert(0, "canary: two BLAS columns with different segments");
@@ -137,4 +158,5 @@ void h_bmod2D(void) {
   if (in_w == 2 && !ACTIVE(0) && ACTIVE(1) && SEGSZE(1) == 2 && in_nrow >= 1) __CPROVER_assert(0, "canary: empty segment and unrolled case 2");
   if (BLAS(0) && SNODE_END == LUC && in_w*(in_maxsuper + in_rowblk) == TVC && in_m == M && in_w == W && g_lptr + in_nsupr == LC) __CPROVER_assert(0, "canary: lusup, tempv, dense, lsub exactly filled");
   if (g_gemv_calls >= 4) __CPROVER_assert(0, "canary: four gemv calls");
+#endif
 }
